@@ -77,6 +77,36 @@ func checkC06(e *RunEnv) *CheckResult {
 				}
 			}
 		}
+		// deeper directories: a query must select exactly what lies beneath it, at every level
+		deep := []string{"a/b/c", "a/b/d/e", "a/c/x", "a/bc", "a/b.c", "ab/c"}
+		for _, set := range subsetsUpTo(deep, e.pick(3, 4)) {
+			if len(set) < 2 {
+				continue
+			}
+			var pre []Step
+			for _, p := range set {
+				pre = append(pre, Write(p, v1(p)))
+			}
+			pre = append(pre, Run("add", "a", "ab"), Run("commit", "-m", "m"))
+			for _, p := range set {
+				pre = append(pre, Write(p, v2(p)))
+			}
+			pre = append(pre, Run("add", "a", "ab"))
+			jt := append(nameSetTags(set), "judge")
+			for _, q := range [][]string{{"a/b"}, {"a/c"}, {"a"}, {"a/b/d"}, {"a/b", "a/c"}, {"a/c", "a/b"}, {"ab", "a/b"}} {
+				for _, cmd := range [][]string{{"rm"}, {"restore"}, {"restore", "--staged"}, {"add"}} {
+					steps := append(append([]Step{}, pre...), Run(append(append([]string{}, cmd...), q...)...).WithTags(jt...))
+					cs = append(cs, Case{Base: base, BaseName: "S0", BaseSeed: seedS0(), Steps: steps})
+				}
+			}
+		}
+		// staging areas of 200 and 900 entries (the index file exceeds 4 KiB / 64 KiB)
+		for _, n := range []int{200, 900} {
+			jt := []string{"judge", "large-index"}
+			cs = append(cs, Case{Base: base, BaseName: "S0", BaseSeed: seedS0(), Steps: append(hugeDirSteps(n),
+				Run("rm", "huge/file-0100.txt").WithTags(jt...), Write("huge/file-0101.txt", "edited\n"), Write("huge/file-0000.txt", "edited\n"), Run("add", "huge").WithTags(jt...),
+				Run("restore", "--staged", "huge/file-0100.txt").WithTags(jt...), Run("restore", "--staged", "huge").WithTags(jt...), Run("rm", "v1").WithTags(jt...), Run("rm", "huge").WithTags(jt...))})
+		}
 		// tags of the judged step need the state: computed in the case runner's pre node
 		cli = x.RunCases(cs)
 	}, func(x *Explorer, cov map[string]interface{}) {
